@@ -25,10 +25,13 @@ TRUSTED = ["Coq 8.16.1 kernel, vm_compute for the correspondence evaluation",
            "NumPy, vg"]
 CASE_IMPORTS = [("PW.model", "M_polyline_base"), ("PW.model", "M_segment"), ("PW.model", "M_polyline_nearest"),
                 ("PW.model", "M_polyline_length")]
+DEFINITIONAL = ["C08_segment_lengths_shape", "C08_subdivide_closedness"]
 ASSUMPTIONS = ["theorems are about exact real arithmetic; binary64 rounding is covered only by the tolerance of the "
                "correspondence check on sampled inputs",
                "the model describes point_along_path and with_segments_bisected as repaired by the fix commits b4dc017 and "
-               "b67c153; the index theorems for with_segments_bisected assume that no segment is listed twice"]
+               "b67c153 (index maps of with_insertions as repaired by 9e3d823)",
+               "subdivided_by_length has no traced tie (np.ceil(...).astype(int) decides an output size): it is tied by the "
+               "correspondence check only"]
 _IMPORTS = CASE_IMPORTS + [("PW.proofs", "P_vec"), ("PW.proofs", "P_polyline_length")]
 
 QUADS = [(1, 2, 2), (2, 3, 6), (1, 4, 8), (4, 4, 7), (2, 6, 9), (6, 6, 7), (3, 4, 12), (3, 4, 0), (1, 0, 0), (2, 0, 0),
@@ -102,7 +105,7 @@ Proof. intros {vars} Hpath. unfold {T}_path in Hpath; rops. path_facts Hpath. un
   all: cbv [option_map group3]; f_equal; list_eq ltac:(apply V3_ext; first [reflexivity | ring | (field; lra)]). Qed.""" % (_PL(3, closed), fcoq, _UNF, DEC),
             imports=_LIMPORTS))
     BIS = ("cbv [bisect existsb negb Nat.ltb Nat.leb length pl_segments pv pclosed zip app map last edge_end andb orb Nat.eqb nth_error "
-           "seg_mid insert_multi_from points_at filter fst snd cum_offsets has_insert seq nth Nat.add Nat.sub group3 "
+           "seg_mid insert_multi_from points_at filter fst snd count_le inserted_pos combine firstn seq Nat.add Nat.sub group3 "
            "vdivs vadd vzero vx vy vz n0 n1 n2]; rops")
     for name, closed, idx, orig, ins in (("bisect_open_one", False, [1], [0, 1, 3], [2]),
                                          ("bisect_closed_two", True, [2, 0], [1, 3, 4], [0, 2])):
@@ -208,6 +211,17 @@ def gen_cases(rng, n, tier):
                 pts = [pts[0]] * rng.randint(1, 3)           # zero total length: path_centroid refuses
             cases.append({"kind": "lengths", "v": pts, "closed": closed})
         elif u < 0.40:
+            if rng.random() < 0.08:
+                # no segment at all (open, one vertex) or zero total length (repeated vertices): outside the property's
+                # domain, but model and code must agree on what happens
+                base = pts[0]
+                pts = [list(base)] * rng.choice([1, 1, 2, 3])
+                closed = rng.random() < 0.4
+                segs = _segs(pts, closed)
+                fs = [rng.choice([0.0, 0.5, 1.0]) for _ in range(rng.randint(0, 2))]
+                cases.append({"kind": "point_along_no_segment" if not segs else "point_along_zero_length", "v": pts,
+                              "closed": closed, "fs": fs, "single": len(fs) == 1 and rng.random() < 0.5})
+                continue
             if total <= 0:
                 continue
             r = rng.random()
@@ -259,8 +273,15 @@ def gen_cases(rng, n, tier):
                     idx.sort()
             if closed and ne and rng.random() < 0.3 and (ne - 1) not in idx:
                 idx.append(ne - 1)                                         # the closing edge
-            cases.append({"kind": "bisect" + ("_empty" if not idx else ("_closed" if closed else "_open")), "v": pts,
-                          "closed": closed, "idx": idx})
+            dup = bool(idx) and rng.random() < 0.15
+            if dup:                                                        # a segment listed more than once
+                idx = idx + [rng.choice(idx) for _ in range(rng.randint(1, 2))]
+                rng.shuffle(idx)
+            cases.append({"kind": "bisect" + ("_empty" if not idx else "_repeated" if dup else ("_closed" if closed else "_open")),
+                          "v": pts, "closed": closed, "idx": idx,
+                          # plain Python list instead of an int64 array (an EMPTY plain list is refused by the code:
+                          # proposed repair fixes/C08-bisect-plain-empty-list.diff; generated once that is applied)
+                          "plain": bool(idx) and rng.random() < 0.3})
         elif u < 0.93:
             a, b = grid_vec(rng, -4, 4, 2), grid_vec(rng, -4, 4, 2)
             num = rng.choice([2, 3, 4, 5, 7, 8, 2, 1, 0, -3])
@@ -309,7 +330,7 @@ def run_impl(c):
                 return {"v": new.v.tolist(), "closed": bool(new.is_closed), "idx": [int(i) for i in idx],
                         "same_without_indices": bool(np.array_equal(new.v, new2.v) and new2.is_closed == new.is_closed),
                         "args_unchanged": bool(np.array_equal(pl.v, v))}
-            idx = np.array(c["idx"], dtype=np.int64)
+            idx = list(c["idx"]) if c.get("plain") else np.array(c["idx"], dtype=np.int64)
             new, orig, ins = pl.with_segments_bisected(idx, ret_new_indices=True)
             new2 = pl.with_segments_bisected(idx)
             return {"v": new.v.tolist(), "closed": bool(new.is_closed), "orig": [int(i) for i in orig],
@@ -369,7 +390,7 @@ SEGS_ZERO = "subdivide_segments returns NaN rows for a zero-length segment"
 
 
 def _mag(*lists):
-    return max([1.0] + [abs(float(x)) for l in lists for p in l for x in p])
+    return max([0.0] + [abs(float(x)) for l in lists for p in l for x in p])
 
 
 def _near(a, b, tol):
@@ -414,7 +435,7 @@ def _oracle_subdiv(c, o):
     mx = float(c["max_length"])
     tot_new = sum(math.dist(a, b) for a, b in _segs(new, closed))
     tot_old = sum(math.dist(a, b) for a, b in segs)
-    if abs(tot_new - tot_old) > 1e-8 * max(1.0, mag, tot_old):
+    if abs(tot_new - tot_old) > 1e-8 * max(mag, tot_old):
         return "total length changed from %r to %r" % (tot_old, tot_new)
     for e, (a, b) in enumerate(segs):
         lo = idx[e]
@@ -470,10 +491,12 @@ def _oracle_bisect(c, o):
         i = ins[j]
         if not _near(new[i], mid, tol):
             return "inserted point for segment %d is not its midpoint" % e
-        prev, nxt = new[(i - 1) % N], new[(i + 1) % N]
         if not closed and (i == 0 or i == N - 1):
             return "midpoint of segment %d inserted at an end of an open polyline" % e
-        if prev != a or nxt != b:
+        # position: after the segment's start vertex and before its end vertex (closing edge: before vertex 0)
+        lo = orig[e]
+        hi = orig[e + 1] if e + 1 < n else None
+        if (hi is not None and not (lo < i < hi)) or (hi is None and not (i < orig[0])):
             return "midpoint of segment %d does not lie between that segment's end vertices in the new polyline" % e
     return None
 
@@ -534,11 +557,16 @@ def oracle(c, o):
         return None if _near(cen, want, 1e-8 * mag) else "path_centroid is not the length-weighted mean of the midpoints"
     # point_along_path
     bad = any(f < 0 or f > 1 for f in c["fs"])
+    v, closed = c["v"], c["closed"]
+    nosegs = not _segs(v, closed)
     if "raise" in o:
-        return None if (bad and o["raise"] == "ValueError") else "point_along_path raised %s: %s" % (o["raise"], o.get("msg"))
+        if (bad and o["raise"] == "ValueError") or (nosegs and not bad and o["raise"] == "IndexError"):
+            return None
+        return "point_along_path raised %s: %s" % (o["raise"], o.get("msg"))
     if bad:
         return "fraction outside [0,1] accepted"
-    v, closed = c["v"], c["closed"]
+    if nosegs:
+        return None if not c["fs"] else "point_along_path answered on a polyline without any segment"
     if o["shape"] != ([3] if c["single"] else [len(c["fs"]), 3]):
         return "result shape %r" % (o["shape"],)
     total = sum(math.dist(a, b) for a, b in _segs(v, closed))
